@@ -236,22 +236,40 @@ def enum_pairs(maxlen, vals):
 # part 2: documents, histories, splice oracle
 # ----------------------------------------------------------------------------------------------
 
-EXPORTERS = {
-    # module -> classes it exports (all have `function bar(): int`), plus one private class
+ROLE_MODS = {
+    # module role -> class roles it exports (all have `function bar(): int`), plus one private class
     "A": ["Foo", "Bar"],
     "lib.B": ["Foo", "Qux"],
     "lib.deep.C": ["Zed", "Bar"],
     "D": ["Only"],
 }
+# names of >= 16 bytes are heap-interned strings subject to the server's GC (shorter ones are inline)
+LONG_CLASS = {"Foo": "FooArithmeticHelpers", "Bar": "BarVeryLongClassNames", "Qux": "QuxExtraordinaryLength",
+              "Zed": "ZedSixteenBytesPlus1", "Only": "OnlyOneExportedClass", "Hidden": "HiddenPrivateClassName",
+              "Nope": "NopeNotExportedAnywhere"}
+LONG_MOD = {"A": "ArithmeticLibraryModule", "lib.B": "librarypackagename.BetaModuleLongName",
+            "lib.deep.C": "librarypackagename.deeplynestedpackage.GammaModuleLongName", "D": "DeltaModuleWithLongName"}
+
+
+def make_world(rng):
+    """Concrete names for the roles: short (inline PStr) or long (heap PStr), chosen per workspace."""
+    lc, lm = rng.chance(2, 5), rng.chance(1, 3)
+    cn = (lambda r: LONG_CLASS[r]) if lc else (lambda r: r)
+    mn = (lambda r: LONG_MOD[r]) if lm else (lambda r: r)
+    return {"mods": {mn(m): [cn(c) for c in cs] for m, cs in ROLE_MODS.items()}, "cn": cn, "mn": mn,
+            "long_classes": lc, "long_mods": lm}
+
+
 COMMENTS = ["// c1", "/* c2 */", "/** doc3 */", "// é日本", "/* multi\n   line */", "// import {X} from Y;"]
 
 
 def exporter_text(rng, classes, private):
+    """`private`: name of a private class to add, or None."""
     parts = []
     for c in classes:
         parts.append(f"class {c} {{\n  function bar(): int = 1\n}}\n")
     if private:
-        parts.append("private class Hidden {\n  function bar(): int = 1\n}\n")
+        parts.append(f"private class {private} {{\n  function bar(): int = 1\n}}\n")
     parts.append("interface IThing {}\n")
     return "\n".join(parts)
 
@@ -273,8 +291,11 @@ def gen_import(rng, mod, members, semi, style):
     return s + (";" if semi else "")
 
 
-def gen_doc(rng, need, avoid_open, want_nosemi=False, nonascii_tail=False):
-    """A document that uses class `need` without importing it. Returns (text, meta)."""
+def gen_doc(rng, world, need, want_nosemi=False, nonascii_tail=False, exclude=()):
+    """A document that uses class `need` without importing it (and never mentions the classes in
+    `exclude`). Returns (text, meta)."""
+    EXPORTERS = world["mods"]
+    avoid_open = False
     mods = list(EXPORTERS)
     k = rng.weighted([(0, 25), (1, 30), (2, 25), (3, 12), (4, 8)])
     pieces = []
@@ -283,7 +304,7 @@ def gen_doc(rng, need, avoid_open, want_nosemi=False, nonascii_tail=False):
     imports = []
     for i in range(k):
         mod = rng.pick(mods)
-        cands = [c for c in EXPORTERS[mod] if c != need]
+        cands = [c for c in EXPORTERS[mod] if c != need and c not in exclude]
         if not cands:
             continue
         members = rng.shuffle(cands)[:rng.range(1, len(cands))]
@@ -302,10 +323,10 @@ def gen_doc(rng, need, avoid_open, want_nosemi=False, nonascii_tail=False):
         if last and nonascii_tail:
             sep = " // é𝔸\n"
         pieces.append(sep)
-    if want_nosemi and not imports:
-        mod = "D"
-        imports.append((mod, ["Only"], False))
-        pieces.append("import { Only } from D")
+    if want_nosemi and not imports and need != world["cn"]("Only"):
+        mod = world["mn"]("D")
+        imports.append((mod, [world["cn"]("Only")], False))
+        pieces.append("import { %s } from %s" % (world["cn"]("Only"), mod))
         pieces.append(rng.pick(["\n", " // t\n", "\n\n"]))
     use = rng.weighted([("call", 40), ("param", 20), ("field", 15), ("two", 15), ("local", 10)])
     cname = rng.pick(["Main", "Main2", "App"])
@@ -328,25 +349,49 @@ def gen_doc(rng, need, avoid_open, want_nosemi=False, nonascii_tail=False):
     return text, {"imports": len(imports), "use": use, "lead": lead != "", "nosemi_last": bool(imports) and not imports[-1][2] and not avoid_open}
 
 
-def gen_case(rng, avoid_open=True, want_nosemi=False, nonascii_tail=False):
+def gen_case(rng, want_nosemi=False, nonascii_tail=False, force_hist=None):
     """One workspace + history. Returns dict(lines=[protocol lines up to final state], doc, need, exporters)."""
-    need = rng.weighted([("Foo", 40), ("Bar", 20), ("Qux", 10), ("Zed", 10), ("Only", 10), ("Nope", 5), ("Hidden", 5)])
-    final_mods = {m: list(cs) for m, cs in EXPORTERS.items()}
-    private_in = rng.pick(list(EXPORTERS))
-    doc, meta = gen_doc(rng, need, avoid_open, want_nosemi, nonascii_tail)
-    hist = rng.weighted([("none", 35), ("doc_edit", 25), ("late_export", 15), ("rename_exporter", 10), ("remove_exporter", 8), ("doc_late", 7)])
+    world = make_world(rng)
+    cn, mn = world["cn"], world["mn"]
+    role = rng.weighted([("Foo", 40), ("Bar", 20), ("Qux", 10), ("Zed", 10), ("Only", 10), ("Nope", 5), ("Hidden", 5)])
+    need = cn(role)
+    final_mods = {m: list(cs) for m, cs in world["mods"].items()}
+    private_in = rng.pick(list(final_mods))
+    doc, meta = gen_doc(rng, world, need, want_nosemi, nonascii_tail)
+    hist = force_hist or rng.weighted([("none", 25), ("pre_mention", 25), ("doc_edit", 15), ("late_export", 12),
+                                       ("rename_exporter", 9), ("remove_exporter", 7), ("doc_late", 7)])
     lines = ["new"]
-    srcs = {m: exporter_text(rng, cs, m == private_in) for m, cs in final_mods.items()}
-    steps = []
+    srcs = {m: exporter_text(rng, cs, cn("Hidden") if m == private_in else None) for m, cs in final_mods.items()}
+    others = [cn(r) for r in ("Foo", "Bar", "Zed", "Qux", "Nope") if cn(r) != need]
+    def other_doc():
+        # a version of the document that does not mention `need` at all
+        return gen_doc(rng.fork(), world, rng.pick(others), exclude=(need,))[0]
     if hist == "none":
         for m, s in srcs.items(): lines.append(f"src {m} {hexs(s)}")
         lines.append(f"src Doc {hexs(doc)}"); lines.append("init")
+    elif hist == "pre_mention":
+        # the whole edit history happens BEFORE the document first mentions the class: every GC round
+        # of the history runs while nothing outside the exporter refers to the class name
+        for m, s in srcs.items(): lines.append(f"src {m} {hexs(s)}")
+        if rng.chance(1, 2):
+            lines.append(f"src Scratch {hexs('class ScratchPad {}' + chr(10))}")
+        first = rng.pick(["class Main {\n  function main(): int = 1\n}\n", other_doc(), ""])
+        lines.append(f"src Doc {hexs(first)}"); lines.append("init")
+        for _ in range(rng.range(1, 3)):
+            k = rng.below(4)
+            if k == 0:
+                lines.append(f"upd Scratch {hexs('class ScratchPad { function f(): int = %d }' % rng.below(9) + chr(10))}")
+            elif k == 1:
+                lines.append(f"upd Doc {hexs('class Main {' + chr(10) + '  function main(): int = %d' % rng.below(9) + chr(10) + '}' + chr(10))}")
+            else:
+                lines.append(f"upd Doc {hexs(other_doc())}")
+        lines.append(f"upd Doc {hexs(doc)}")
     elif hist == "doc_edit":
         for m, s in srcs.items(): lines.append(f"src {m} {hexs(s)}")
-        v0, _ = gen_doc(rng.fork(), rng.pick(["Foo", "Bar", "Zed"]), True)
+        v0, _ = gen_doc(rng.fork(), world, cn(rng.pick(["Foo", "Bar", "Zed"])))
         lines.append(f"src Doc {hexs(v0)}"); lines.append("init")
         for _ in range(rng.range(0, 2)):
-            vi, _ = gen_doc(rng.fork(), rng.pick(["Foo", "Qux", "Nope"]), True)
+            vi, _ = gen_doc(rng.fork(), world, cn(rng.pick(["Foo", "Qux", "Nope"])))
             lines.append(f"upd Doc {hexs(vi)}")
         if rng.chance(1, 4):
             lines.append(f"upd Doc {hexs('class {{{ broken')}")
@@ -376,11 +421,11 @@ def gen_case(rng, avoid_open=True, want_nosemi=False, nonascii_tail=False):
         lines.append("init")
         lines.append(f"upd Doc {hexs(doc)}")
     exporters = sorted(m for m, cs in final_mods.items() if need in cs)
-    if need == "Hidden" and private_in:
+    if role == "Hidden" and private_in:
         exporters = [private_in]
     meta["history"] = hist
-    return {"lines": lines, "doc": doc, "need": need, "exporters": exporters, "meta": meta,
-            "imported_in_doc": None}
+    meta["names"] = ("long" if world["long_classes"] else "short") + "-class/" + ("long" if world["long_mods"] else "short") + "-module"
+    return {"lines": lines, "doc": doc, "need": need, "exporters": exporters, "meta": meta}
 
 
 # --- independent splice ---------------------------------------------------------------------
@@ -605,6 +650,8 @@ class DocRunner:
             self.stats["cases"] += 1
             self.stats["history"][c["meta"]["history"]] = self.stats["history"].get(c["meta"]["history"], 0) + 1
             self.stats["imports_hist"][str(c["meta"]["imports"])] = self.stats["imports_hist"].get(str(c["meta"]["imports"]), 0) + 1
+            nm = c["meta"].get("names", "?")
+            self.stats.setdefault("names_hist", {})[nm] = self.stats.setdefault("names_hist", {}).get(nm, 0) + 1
             if not c["state_ok"]:
                 self.stats["state_panics"] += 1   # server crash while building the history: C11's business
                 continue
@@ -700,15 +747,8 @@ class DocRunner:
         payload = {"protocol": "docs", "label": label, "ops": c["lines"] + ([a["query"]] if a else []), "doc": c["doc"],
                    "need": c["need"], "exporters": c["exporters"], "failures": bad,
                    "action": {k: v for k, v in (a or {}).items() if k in ("kind", "query", "name", "module", "title", "edits", "spliced", "reason")}}
-        # known-finding matching
-        for f in ctx.open_findings:
-            if f["id"] == "C16-F1" and a and a.get("edits") and a.get("spliced") is not None and \
-                    nosemi_signature(c["doc"], a["edits"]):
-                ctx.known(f)
-                self.stats["known_hits"] += 1
-                return
-        if probe_of:
-            return  # a probe for a finding that is not open any more: nothing to report
+        # known-finding matching: no open finding left (C16-F1 is fixed by /repo commit 2ac0a3a; a
+        # regression of it is an ordinary VIOLATION). `nosemi_signature` is kept for the record only.
         if len(ctx.violations) < 3:
             small = shrink_case(self, c, a, bad)
             payload["shrunk_doc"] = small
@@ -803,14 +843,9 @@ def run(ctx):
         ndocs = ctx.scale(1040, 20000)
         done = 0
         while done < ndocs and len(ctx.violations) < 1:
-            batch = [gen_case(rng.fork(), avoid_open=True) for _ in range(min(65, ndocs - done))]
+            batch = [gen_case(rng.fork(), want_nosemi=rng.chance(1, 8)) for _ in range(min(65, ndocs - done))]
             done += len(batch)
             runner.run_cases(batch, f"generated documents seed={ctx.seed}")
-        # one dedicated probe per open finding
-        for f in ctx.open_findings:
-            if f["id"] == "C16-F1":
-                probes = [gen_case(rng.fork(), avoid_open=False, want_nosemi=True) for _ in range(4)]
-                runner.run_cases(probes, "probe C16-F1", probe_of="C16-F1")
     ev_docs = stats["actions"]
     ctx.cov.update({
         "evaluations": stats["diff_lines"] + ev_docs,
@@ -818,8 +853,10 @@ def run(ctx):
         "rule": ("(a) list pairs: all pairs over {0,1,2} up to a length bound + random structured pairs (append-one, "
                  "edits of old, random, full replace, empty, equal, long, duplicates-only); a pair is non-trivial if its "
                  "script has a replace (fusion ran) or >= 2 changes; (b) documents: generated import headers (0-4 imports, "
-                 "6 layouts, comments/blank lines/CRLF between, optional ';') x use site of an unimported class x edit "
-                 "history (none, doc edits incl. a broken version, late export, exporter rename/removal, doc created by "
+                 "6 layouts, comments/blank lines/CRLF between, optional ';' also on the last import) x use site of an "
+                 "unimported class x class/module names short (inline PStr) or >= 16 bytes (heap PStr, subject to the "
+                 "server GC) x edit history (none, pre_mention = 1-3 unrelated updates before the document first mentions "
+                 "the class, doc edits incl. a broken version, late export, exporter rename/removal, doc created by "
                  "update); every quick fix and completion additional edit returned is spliced and re-analysed; counted "
                  "distinct by (document, api, class, module)"),
         "samples": stats["samples"] + stats["doc_samples"],
@@ -829,7 +866,7 @@ def run(ctx):
         "pair_shape_histogram": stats["shape"], "change_kind_histogram": stats["change_kinds"],
         "documents": stats["cases"], "document_actions_checked": stats["actions"],
         "document_actions_ok": stats["actions_ok"], "distinct_document_actions": len(stats["distinct_actions"]),
-        "history_histogram": stats["history"], "imports_per_document_histogram": stats["imports_hist"],
+        "history_histogram": stats["history"], "name_length_histogram": stats.get("names_hist", {}), "imports_per_document_histogram": stats["imports_hist"],
         "action_kind_histogram": stats["action_kinds"], "server_panics_while_building_history": stats["state_panics"],
         "known_finding_hits": stats["known_hits"],
     })
